@@ -219,6 +219,12 @@ int main(int argc, char **argv)
 	struct simulation_configuration conf = {.lps = VM.n_lps, .n_threads = threads, .termination_time = term_time, .gvt_period = gvt_us,
 	    .log_level = LOG_SILENT, .stats_file = stats_prefix ? sf : NULL, .ckpt_interval = ckpt, .prng_seed = global_config.prng_seed,
 	    .core_binding = false, .serial = false, .dispatcher = vm_process, .committed = vm_can_end};
+	/* thread-to-core binding is a configuration dimension of C09: used in serialized (baton) runs only, where pinning thread i of every
+	 * concurrently running case to core i cannot turn spin loops into artefacts */
+	if(vh_cfg.baton && getenv("VERIF_CORE_BINDING") && (pseed % 2) == 0) {
+		conf.core_binding = true;
+		printf("STAT runs_with_core_binding 1\n");
+	}
 	pthread_t wd;
 	pthread_create(&wd, NULL, watchdog, NULL);
 	if(RootsimInit(&conf)) {
